@@ -158,6 +158,7 @@ pub fn worker_main(args: &[String]) -> i32 {
     ws.process_starts += 1;
     let _ = writeln!(out, "{}", json!({"stats": ws}));
     let _ = out.flush();
+    crate::spec::remove_logo_dir();
     let left = count - done.min(count);
     if left > 0 && !ws.stopped_by_time_cap && done == this_count {
         // next segment: replace this process image
@@ -240,6 +241,7 @@ pub fn exec_main(args: &[String]) -> i32 {
             break;
         }
     }
+    crate::spec::remove_logo_dir();
     println!(
         "{}",
         json!({"violation": viol.as_ref().map(|(_, v)| v), "episode_pos": viol.as_ref().map(|(i, _)| i), "results": results})
